@@ -89,7 +89,11 @@ func (p *Proxy) GetAttr(name string) (Object, bool) {
 		}
 		result, err := conv.From(value.Interface())
 		if err != nil {
-			return NewError(err), true
+			// Fail the attribute lookup itself. Returning an error object here
+			// would hand it to the script as if it were the field's value.
+			return NewDynamicAttr(name, func(context.Context, string) (Object, error) {
+				return nil, err
+			}), true
 		}
 		return result, true
 	case *GoMethod:
